@@ -122,6 +122,8 @@ def _work(arg):
     try:
         mod = importlib.import_module(modname)
         run = Run(spec, open_keys)
+        from . import env as _E
+        _E.clear_all_caches()
         out = mod.run_inst(spec, run)
         out["spec"] = spec
         out["wall_s"] = round(time.time() - t0, 3)
